@@ -400,6 +400,28 @@ fn in_fragment(tok: &str) -> bool {
     true
 }
 
+/// A selector whose serialisation fails after part of it has been written.
+struct FailsLate {
+    name: String,
+}
+impl Serialize for FailsLate {
+    fn serialize<S: serde::Serializer>(&self, s: S) -> Result<S::Ok, S::Error> {
+        use serde::ser::SerializeStruct;
+        let mut st = s.serialize_struct("FailsLate", 2)?;
+        st.serialize_field("name", &self.name)?;
+        Err(serde::ser::Error::custom("this selector cannot be serialised"))
+    }
+}
+
+/// History: a token that could not be issued (the selector fails to serialise part-way: a
+/// 500 for that request) must leave nothing behind for the tokens issued afterwards.
+fn failed_issue_first() -> bool {
+    matches!(
+        catch(|| hooks::serialize_page_token(&FailsLate { name: "left-over \"fragment\" of a failed token".repeat(3) })),
+        Ok(Err(_))
+    )
+}
+
 fn run_type<T: Serialize + DeserializeOwned + std::panic::RefUnwindSafe>(
     out: &mut Out,
     ctr: &mut Ctr,
@@ -412,8 +434,11 @@ fn run_type<T: Serialize + DeserializeOwned + std::panic::RefUnwindSafe>(
     let tyh = hex(ty.as_bytes());
     for (vi, v) in values.iter().enumerate() {
         let sj = serde_json::to_vec(v).unwrap();
+        // every third token is issued right after one that could not be
+        let clean_failure = vi % 3 != 1 || failed_issue_first();
         let issued = catch(|| hooks::serialize_page_token(v));
         let line = match &issued {
+            _ if !clean_failure => "panic".to_string(),
             Err(_) => "panic".to_string(),
             Ok(Err(e)) => format!("err {}", e.status_code.as_u16()),
             Ok(Ok(t)) => {
